@@ -76,7 +76,7 @@ static double threadCpu(pthread_t t)
 }
 
 // writes `data` in the given fragments (cut offsets), draining the reply meanwhile; then closes (full close) and waits for the handler.
-static ConnResult runConn(vf::Ctx& c, Srv& srv, const std::string& data, const std::vector<size_t>& cuts, bool halfClose)
+static ConnResult runConn(vf::Ctx& c, Srv& srv, const std::string& data, const std::vector<size_t>& cuts, bool halfClose, double halfCloseWait = 2.0)
 {
 	ConnResult R;
 	R.finished = false; R.cpu = 0; R.wall = 0; R.spun = false;
@@ -117,9 +117,12 @@ static ConnResult runConn(vf::Ctx& c, Srv& srv, const std::string& data, const s
 	}
 	double t0 = vf::now();
 	if (halfClose) {
+		// half close: the handler sees EOF after everything that was sent. Keep reading its replies until it is done -
+		// closing earlier with unread replies in our receive queue would reset the connection and discard requests the
+		// handler has not read yet (seen on a loaded machine), which is the client's doing, not the server's
 		shutdown(fd, SHUT_WR);
 		double tw = vf::now();
-		while (!done && vf::now() - tw < 1.0) if (!drain(20)) break;
+		while (!done && vf::now() - tw < halfCloseWait) if (!drain(20)) break;
 	} else {
 		drain(c.rng.chance(0.5) ? 0 : 2);
 	}
@@ -311,7 +314,7 @@ static void mode_wellformed(vf::Ctx& c)
 	for (int i = 0; i < k; i++) stream += genRequest(c.rng, exp[i], i == k - 1, lookups, i);
 	{ std::lock_guard<std::mutex> l(g_mu); g_lookups = lookups; }
 	c.desc(vf::fmt("%d pipelined well-formed requests, %d bytes: ", k, (int)stream.size()) + vf::vis(stream, 1500));
-	ConnResult r = runConn(c, srv, stream, randCuts(c.rng, stream.size()), true);
+	ConnResult r = runConn(c, srv, stream, randCuts(c.rng, stream.size()), true, 60.0);
 	judgeTermination(c, r, "wellformed");
 	compareSeen(c, exp, stream);
 	c.count("requests", k);
@@ -425,7 +428,7 @@ static void mode_targets(vf::Ctx& c)
 	{ std::lock_guard<std::mutex> l(g_mu); g_seen.clear(); g_lookups.clear(); }
 	g_dotdot = 0;
 	c.desc(vf::fmt("targets %d..%d pipelined on one connection, e.g. GET /%s", (int)from, (int)to - 1, g_targets[from].c_str()));
-	ConnResult r = runConn(c, srv, stream, std::vector<size_t>(), true);
+	ConnResult r = runConn(c, srv, stream, std::vector<size_t>(), true, 60.0);
 	judgeTermination(c, r, "targets");
 	std::vector<Seen> seen;
 	{ std::lock_guard<std::mutex> l(g_mu); seen = g_seen; }
@@ -459,7 +462,7 @@ static void mode_targets_rand(vf::Ctx& c)
 	{ std::lock_guard<std::mutex> l(g_mu); g_seen.clear(); g_lookups.clear(); }
 	g_dotdot = 0;
 	c.desc("random targets: " + vf::vis(stream, 1500));
-	ConnResult r = runConn(c, srv, stream, std::vector<size_t>(), true);
+	ConnResult r = runConn(c, srv, stream, std::vector<size_t>(), true, 60.0);
 	judgeTermination(c, r, "targets");
 	if (g_dotdot) c.fail("path-contains-dotdot", vf::vis(g_dotdotPath));
 	if (r.received.find("SECRET-SENTINEL") != std::string::npos) c.fail("file-outside-root-served", "");
